@@ -7,7 +7,12 @@ use std::panic::{catch_unwind, AssertUnwindSafe};
 
 thread_local! {
     static LAST_PANIC: RefCell<String> = const { RefCell::new(String::new()) };
+    static GUARD_DEPTH: std::cell::Cell<u32> = const { std::cell::Cell::new(0) };
 }
+
+/// (message, location) of recent panics on any thread: a panic inside one of lopdf's rayon
+/// workers is re-thrown on the calling thread, whose thread-local record would be empty.
+static RECENT: std::sync::Mutex<Vec<(String, String)>> = std::sync::Mutex::new(Vec::new());
 
 /// Install a panic hook that records the message and location instead of printing it.
 pub fn quiet_panics() {
@@ -20,15 +25,38 @@ pub fn quiet_panics() {
         } else {
             "non-string panic".to_string()
         };
+        RECENT.lock().unwrap_or_else(|e| e.into_inner()).push((msg.clone(), loc.clone()));
+        if GUARD_DEPTH.with(|d| d.get()) == 0 && std::thread::current().name() == Some("main") {
+            // a panic of the harness itself (outside any guarded call into lopdf): show it
+            eprintln!("MACHINERY: harness panic at {}: {}", loc, msg);
+        }
         LAST_PANIC.with(|p| *p.borrow_mut() = format!("panic at {}: {}", loc, msg));
     }));
 }
 
 /// Run `f`, turning a panic into Err(message with location).
 pub fn guard<T>(f: impl FnOnce() -> T) -> Result<T, String> {
-    match catch_unwind(AssertUnwindSafe(f)) {
+    GUARD_DEPTH.with(|d| d.set(d.get() + 1));
+    let r = catch_unwind(AssertUnwindSafe(f));
+    GUARD_DEPTH.with(|d| d.set(d.get() - 1));
+    match r {
         Ok(v) => Ok(v),
-        Err(_) => Err(LAST_PANIC.with(|p| p.borrow().clone())),
+        Err(payload) => {
+            let msg = if let Some(s) = payload.downcast_ref::<&str>() {
+                s.to_string()
+            } else if let Some(s) = payload.downcast_ref::<String>() {
+                s.clone()
+            } else {
+                "non-string panic".to_string()
+            };
+            let mut recent = RECENT.lock().unwrap_or_else(|e| e.into_inner());
+            let loc = recent.iter().rev().find(|(m, _)| *m == msg).map(|(_, l)| l.clone()).unwrap_or_default();
+            if recent.len() > 256 {
+                let n = recent.len() - 64;
+                recent.drain(..n);
+            }
+            Err(format!("panic at {}: {}", loc, msg))
+        }
     }
 }
 
